@@ -630,6 +630,729 @@ fn views(out: &mut Out, rng: &mut Rng, thorough: bool) {
 	}
 }
 
+// ---------------------------------------------------------------------------------------------
+// One long-lived mutable handle under arbitrary operation histories with sparse observations
+// (run `handle`), and handles / views opened at ANY size, valid MMR size or not (run `atsize`).
+// Model: `Model/PmmrHandle.lean` (`Handle` = backend + size); driver ops are prefixed `h`.
+// ---------------------------------------------------------------------------------------------
+
+/// `2n - popcount n` computed here, not with the code under test
+fn size_of_leaves(n: u64) -> u64 {
+	2 * n - n.count_ones() as u64
+}
+
+/// is `s` the size of an MMR with some number of leaves? (binary search over the leaf count; does
+/// not use any function of pmmr.rs)
+fn is_valid_mmr_size(s: u64) -> bool {
+	let (mut lo, mut hi) = (s / 2, s);
+	while lo < hi {
+		let mid = lo + (hi - lo) / 2;
+		if size_of_leaves(mid) < s {
+			lo = mid + 1;
+		} else {
+			hi = mid;
+		}
+	}
+	size_of_leaves(lo) == s
+}
+
+/// number of leaves of the largest MMR of size <= s (own computation)
+fn leaves_upto(s: u64) -> u64 {
+	let (mut lo, mut hi) = (s / 2, s + 1);
+	// largest n with size_of_leaves(n) <= s
+	while lo < hi {
+		let mid = lo + (hi - lo + 1) / 2;
+		if size_of_leaves(mid) <= s {
+			lo = mid;
+		} else {
+			hi = mid - 1;
+		}
+	}
+	lo
+}
+
+fn opt_hash(h: Option<Hash>) -> String {
+	match h {
+		Some(h) => hex(h.as_bytes()),
+		None => "none".to_string(),
+	}
+}
+
+fn opt_elem(e: Option<Elem>) -> String {
+	match e {
+		Some(e) => hex(&e.0),
+		None => "none".to_string(),
+	}
+}
+
+fn elems_str(v: &[Elem]) -> String {
+	let parts: Vec<String> = v.iter().map(|e| hex(&e.0)).collect();
+	format!("[{}]", parts.join(","))
+}
+
+fn backend_line(out: &mut Out, b: &VecBackend<Elem>) {
+	let d = match &b.data {
+		Some(d) => d.len().to_string(),
+		None => "none".to_string(),
+	};
+	out.line("pmmr hbackend", &format!("{} {} {}", b.hashes.len(), d, b.removed.len()));
+}
+
+/// the MMR of `elems` built from nothing through short-lived handles: (root, hashes)
+fn fresh_build(elems: &[Elem]) -> (String, Vec<Hash>) {
+	let mut fb = VecBackend::<Elem>::new();
+	let mut fsize = 0u64;
+	for e in elems {
+		let mut p = PMMR::at(&mut fb, fsize);
+		let _ = p.push(e);
+		fsize = p.size;
+	}
+	let r = root_str(PMMR::at(&mut fb, fsize).root());
+	(r, fb.hashes.clone())
+}
+
+#[derive(Default)]
+struct HStats {
+	histories: u64,
+	pushes: u64,
+	rewinds: u64,
+	rewind_noop: u64,
+	rewind_nonleaf: u64,
+	rewind_to_zero: u64,
+	replace_same_size: u64,
+	replace_same_contents: u64,
+	replace_observed_both: u64,
+	replace_paired: u64,
+	obs: u64,
+	root_obs: u64,
+	proof_obs: u64,
+	steps_unobserved: u64,
+	steps: u64,
+	max_leaves: u64,
+	sizes_revisited: u64,
+}
+
+/// what the harness remembers of the handle's root observations: contents -> root
+struct Seen {
+	by_contents: std::collections::HashMap<Vec<Vec<u8>>, String>,
+	by_root: std::collections::HashMap<String, Vec<Vec<u8>>>,
+}
+
+fn contents(elems: &[Elem]) -> Vec<Vec<u8>> {
+	elems.iter().map(|e| e.0.clone()).collect()
+}
+
+/// a random batch of observations on the live handle; every observation is a driver line; the
+/// oracle of the property is evaluated on the implementation as well
+fn observe<'a>(
+	out: &mut Out,
+	rng: &mut Rng,
+	p: &PMMR<'a, Elem, VecBackend<Elem>>,
+	elems: &[Elem],
+	seen: &mut Seen,
+	st: &mut HStats,
+	force_root: bool,
+	how_many: u64,
+) {
+	let size = p.unpruned_size();
+	let n = elems.len() as u64;
+	for k in 0..how_many {
+		st.obs += 1;
+		let kind = if force_root && k == 0 { 0 } else { rng.below(8) };
+		match kind {
+			0 | 1 => {
+				st.root_obs += 1;
+				let r = root_str(p.root());
+				out.line("pmmr hroot", &r);
+				let ro = root_str(p.readonly_pmmr().root());
+				if ro != r {
+					out.raw(&format!("#ORACLE-FAIL C07 live handle at size {} ({} leaves {}) says root {} but a fresh ReadonlyPMMR::at on the same backend and size says {}", size, n, elems_str(elems), r, ro));
+				}
+				let c = contents(elems);
+				if let Some(prev) = seen.by_contents.get(&c) {
+					if *prev != r {
+						out.raw(&format!("#ORACLE-FAIL C07 the same element list {} gave root {} earlier in this handle's history and gives {} now", elems_str(elems), prev, r));
+					}
+				}
+				if let Some(prev) = seen.by_root.get(&r) {
+					if *prev != c && r != "zero" {
+						out.raw(&format!("#ORACLE-FAIL C07 root {} returned for element list {} was returned before for a different list (size {})", r, elems_str(elems), size));
+					}
+				}
+				seen.by_contents.insert(c.clone(), r.clone());
+				seen.by_root.insert(r, c);
+			}
+			2 => {
+				let pk = hashes(&p.peaks());
+				out.line("pmmr hpeaks", &pk);
+				if hashes(&p.readonly_pmmr().peaks()) != pk {
+					out.raw(&format!("#ORACLE-FAIL C07 live handle at size {} and a fresh readonly view disagree on the peaks (elements {})", size, elems_str(elems)));
+				}
+			}
+			3 | 4 => {
+				st.proof_obs += 1;
+				// mostly a present leaf (often one of the most recent), sometimes anything
+				let pos = if n > 0 && !rng.chance(1, 6) {
+					let i = if rng.chance(1, 2) { n - 1 - rng.below(n.min(4)) } else { rng.below(n) };
+					pmmr::insertion_to_pmmr_index(i)
+				} else {
+					rng.below(size + 4)
+				};
+				let proof = p.merkle_proof(pos);
+				match &proof {
+					Ok(pr) => out.line(&format!("pmmr hproof {}", pos), &format!("{} {}", pr.mmr_size, hashes(&pr.path))),
+					Err(_) => out.line(&format!("pmmr hproof {}", pos), "err"),
+				}
+				let leaf_idx = if is_valid_mmr_size(pos) && pos < size { Some(leaves_upto(pos)) } else { None };
+				match (leaf_idx, proof) {
+					(Some(i), Ok(pr)) => {
+						let ok = match p.root() {
+							Ok(root) => pr.verify(root, &elems[i as usize], pos).is_ok(),
+							Err(_) => false,
+						};
+						if !ok {
+							out.raw(&format!("#ORACLE-FAIL C07 proof handed out by the live handle for leaf {} (position {}) does not verify against the handle's own root; size {} elements {}", i, pos, size, elems_str(elems)));
+						}
+					}
+					(Some(i), Err(_)) => out.raw(&format!("#ORACLE-FAIL C07 live handle has no proof for present leaf {} (position {}), size {} elements {}", i, pos, size, elems_str(elems))),
+					(None, Ok(_)) => out.raw(&format!("#ORACLE-FAIL C07 live handle at size {} hands out a proof for position {} which is not a leaf of its MMR", size, pos)),
+					(None, Err(_)) => {}
+				}
+			}
+			5 => {
+				if size <= 400 || rng.chance(1, 4) {
+					out.line("pmmr hvalidate", &p.validate().is_ok().to_string());
+				}
+			}
+			6 => {
+				let pos = if rng.chance(1, 5) { size + rng.below(3) } else { rng.below(size.max(1)) };
+				out.line(&format!("pmmr hhash {}", pos), &opt_hash(p.get_hash(pos)));
+			}
+			_ => {
+				let pos = if n > 0 && !rng.chance(1, 5) {
+					pmmr::insertion_to_pmmr_index(if rng.chance(1, 2) { n - 1 - rng.below(n.min(4)) } else { rng.below(n) })
+				} else {
+					rng.below(size + 3)
+				};
+				let d = p.get_data(pos);
+				out.line(&format!("pmmr hdata {}", pos), &opt_elem(d.clone()));
+				if is_valid_mmr_size(pos) && pos < size {
+					let i = leaves_upto(pos) as usize;
+					if d.as_ref() != Some(&elems[i]) {
+						out.raw(&format!("#ORACLE-FAIL C07 live handle returns {} for leaf {} (position {}) where {} was pushed; size {}", opt_elem(d), i, pos, hex(&elems[i].0), size));
+					}
+				} else if d.is_some() {
+					out.raw(&format!("#ORACLE-FAIL C07 live handle at size {} returns an element for position {} which is not one of its leaves", size, pos));
+				}
+			}
+		}
+	}
+	if rng.chance(1, 6) {
+		out.line("pmmr hsize", &size.to_string());
+	}
+}
+
+fn hpush<'a>(out: &mut Out, p: &mut PMMR<'a, Elem, VecBackend<Elem>>, e: &Elem, elems: &mut Vec<Elem>, st: &mut HStats) {
+	let before = p.size;
+	let r = p.push(e);
+	st.pushes += 1;
+	match r {
+		Ok(_) => {
+			out.line(&format!("pmmr hpush {}", hex(&e.0)), &p.size.to_string());
+			elems.push(e.clone());
+			let want = size_of_leaves(elems.len() as u64);
+			if p.size != want {
+				out.raw(&format!("#ORACLE-FAIL C07 after pushing leaf number {} the live handle has size {} where the MMR of that many leaves has {}", elems.len(), p.size, want));
+			}
+		}
+		Err(_) => {
+			out.line(&format!("pmmr hpush {}", hex(&e.0)), "err");
+			out.raw(&format!("#ORACLE-FAIL C07 push refused on a live handle at the valid size {} ({} leaves)", before, elems.len()));
+		}
+	}
+}
+
+fn hrewind<'a>(out: &mut Out, p: &mut PMMR<'a, Elem, VecBackend<Elem>>, pos: u64, elems: &mut Vec<Elem>, st: &mut HStats) {
+	let r = p.rewind(pos, &croaring::Bitmap::new());
+	st.rewinds += 1;
+	out.line(&format!("pmmr hrewind {}", pos), &if r.is_ok() { p.size.to_string() } else { "err".into() });
+	// own computation of what must remain: the leaves whose hashes all lie below the least leaf
+	// boundary at or above `pos`
+	let mut keep = leaves_upto(pos);
+	if size_of_leaves(keep) < pos {
+		keep += 1;
+	}
+	let keep = keep.min(elems.len() as u64);
+	elems.truncate(keep as usize);
+	if p.size != size_of_leaves(keep) {
+		out.raw(&format!("#ORACLE-FAIL C07 rewind to position {} leaves the live handle at size {} where {} leaves (size {}) must remain", pos, p.size, keep, size_of_leaves(keep)));
+	}
+}
+
+/// one history on one live handle
+fn one_history(out: &mut Out, rng: &mut Rng, st: &mut HStats, maxn: u64, steps: u64, variant: u64) {
+	st.histories += 1;
+	let mut ba = VecBackend::<Elem>::new();
+	let mut elems: Vec<Elem> = vec![];
+	out.raw("pmmr hnew");
+	// variants 1,2: the backend is filled through short-lived handles first
+	let mut size = 0u64;
+	if variant >= 1 {
+		let n0 = rng.range(1, maxn / 2 + 1);
+		for _ in 0..n0 {
+			let e = Elem(rng.bytes(8));
+			let mut p = PMMR::at(&mut ba, size);
+			let r = p.push(&e);
+			size = p.size;
+			out.line(&format!("pmmr hpush {}", hex(&e.0)), &if r.is_ok() { size.to_string() } else { "err".into() });
+			elems.push(e);
+		}
+	}
+	let mut seen = Seen { by_contents: Default::default(), by_root: Default::default() };
+	let mut sizes_seen: std::collections::HashSet<u64> = Default::default();
+	{
+		// the ONE handle of this history
+		let mut p = match variant {
+			0 => PMMR::new(&mut ba),
+			1 => {
+				out.raw(&format!("pmmr hat {}", size));
+				PMMR::at(&mut ba, size)
+			}
+			_ => {
+				// opened at an earlier leaf boundary of the longer backend; the first operation is the
+				// rewind to a position at or below that size (the use the chain code makes of it)
+				let k = rng.below(elems.len() as u64 + 1);
+				let s = size_of_leaves(k);
+				out.raw(&format!("pmmr hat {}", s));
+				let mut p = PMMR::at(&mut ba, s);
+				let j = rng.below(k + 1);
+				let mut target = size_of_leaves(j);
+				if rng.chance(1, 3) && target > 1 && !is_valid_mmr_size(target - 1) {
+					target -= 1;
+				}
+				hrewind(out, &mut p, target, &mut elems, st);
+				p
+			}
+		};
+		for _ in 0..steps {
+			st.steps += 1;
+			let n = elems.len() as u64;
+			st.max_leaves = st.max_leaves.max(n);
+			if !sizes_seen.insert(p.size) {
+				st.sizes_revisited += 1;
+			}
+			let kind = if n >= maxn { 40 + rng.below(35) } else { rng.below(100) };
+			let mut observed = false;
+			if kind < 40 {
+				for _ in 0..rng.range(1, 3) {
+					let elen = if rng.chance(1, 8) { rng.range(1, 40) as usize } else { 8 };
+					hpush(out, &mut p, &Elem(rng.bytes(elen)), &mut elems, st);
+				}
+			} else if kind < 55 {
+				// rewind: to an earlier leaf boundary, into the middle of a subtree (rounded up), to
+				// the current size (nothing to undo) or to zero
+				let c = rng.below(20);
+				let target = if c == 0 {
+					st.rewind_to_zero += 1;
+					0
+				} else if c == 1 {
+					st.rewind_noop += 1;
+					p.size
+				} else {
+					// mostly a few leaves back, sometimes anywhere
+					let keep = if rng.chance(3, 5) { n - rng.below(n.min(6) + 1) } else { rng.below(n + 1) };
+					let t = size_of_leaves(keep);
+					if rng.chance(1, 3) && t > 1 && !is_valid_mmr_size(t - 1) {
+						st.rewind_nonleaf += 1;
+						t - 1
+					} else {
+						t
+					}
+				};
+				hrewind(out, &mut p, target, &mut elems, st);
+			} else if kind < 75 && n > 0 {
+				// replace the last j leaves: (maybe observe) - rewind - push j leaves back to exactly
+				// the same size, other elements or the same ones - NO observation in between -
+				// (maybe observe)
+				st.replace_same_size += 1;
+				let jmax = if rng.chance(1, 5) { 20 } else { 5 };
+				let j = rng.range(1, n.min(jmax));
+				let before = rng.chance(7, 10);
+				let after = rng.chance(8, 10);
+				let nobs = rng.range(1, 3);
+				let force_b = !rng.chance(1, 4);
+				let force_a = !rng.chance(1, 4);
+				// half of the time the observations after the replacement are exactly the ones made
+				// before it (same calls, same positions): anything remembered per size or per
+				// (size, position) is asked for again with other contents
+				let paired = rng.chance(1, 2);
+				let mut rb = Rng(rng.next() | 1);
+				let mut ra = if paired { Rng(rb.0) } else { Rng(rng.next() | 1) };
+				if paired && before && after {
+					st.replace_paired += 1;
+				}
+				if before {
+					observe(out, &mut rb, &p, &elems, &mut seen, st, force_b, nobs);
+				}
+				let s0 = p.size;
+				let old: Vec<Elem> = elems[(n - j) as usize..].to_vec();
+				let same = rng.chance(1, 5);
+				if same {
+					st.replace_same_contents += 1;
+				}
+				hrewind(out, &mut p, size_of_leaves(n - j), &mut elems, st);
+				for i in 0..j {
+					let e = if same { old[i as usize].clone() } else { Elem(rng.bytes(old[i as usize].0.len())) };
+					hpush(out, &mut p, &e, &mut elems, st);
+				}
+				if p.size != s0 {
+					out.raw(&format!("#ORACLE-FAIL C07 {} leaves removed and {} pushed: size {} before, {} after", j, j, s0, p.size));
+				}
+				if after {
+					observe(out, &mut ra, &p, &elems, &mut seen, st, if paired { force_b } else { force_a }, nobs);
+					observed = true;
+				}
+				if before && after {
+					st.replace_observed_both += 1;
+				}
+			} else {
+				let k = rng.range(1, 3);
+				observe(out, rng, &p, &elems, &mut seen, st, false, k);
+				observed = true;
+			}
+			if !observed {
+				st.steps_unobserved += 1;
+			}
+		}
+		// end of the history: everything once, against the current list
+		observe(out, rng, &p, &elems, &mut seen, st, true, 1);
+		out.line("pmmr hpeaks", &hashes(&p.peaks()));
+		out.line("pmmr hvalidate", &p.validate().is_ok().to_string());
+		out.line("pmmr hsize", &p.unpruned_size().to_string());
+		size = p.size;
+		let root = p.root();
+		for (i, e) in elems.iter().enumerate() {
+			if elems.len() > 24 && !rng.chance(1, 4) {
+				continue;
+			}
+			let pos = size_of_leaves(i as u64);
+			let proof = p.merkle_proof(pos);
+			match &proof {
+				Ok(pr) => out.line(&format!("pmmr hproof {}", pos), &format!("{} {}", pr.mmr_size, hashes(&pr.path))),
+				Err(_) => out.line(&format!("pmmr hproof {}", pos), "err"),
+			}
+			let ok = match (&proof, &root) {
+				(Ok(pr), Ok(r)) => pr.verify(*r, e, pos).is_ok(),
+				_ => false,
+			};
+			if !ok {
+				out.raw(&format!("#ORACLE-FAIL C07 at the end of a history the live handle's proof for leaf {} does not verify against its root (size {}, elements {})", i, size, elems_str(&elems)));
+			}
+		}
+	}
+	// the handle is gone: the backend it leaves behind is the backend of the current list
+	backend_line(out, &ba);
+	out.line("pmmr hfile", &hashes(&ba.hashes));
+	out.line("pmmr hdatafile", &elems_str(ba.data.as_ref().unwrap()));
+	let (froot, fhashes) = fresh_build(&elems);
+	let hroot = root_str(ReadonlyPMMR::at(&ba, size).root());
+	if froot != hroot || fhashes != ba.hashes || ba.data.as_ref().unwrap() != &elems {
+		out.raw(&format!("#ORACLE-FAIL C07 history dependence: after this handle's history the backend (root {}, {} hashes, {} elements) is not the MMR built from the current list {} alone (root {}, {} hashes)", hroot, ba.hashes.len(), ba.data.as_ref().unwrap().len(), elems_str(&elems), froot, fhashes.len()));
+	}
+}
+
+fn handle_run(out: &mut Out, rng: &mut Rng, thorough: bool) {
+	let mut st = HStats::default();
+	let nh = if thorough { 300 } else { 60 };
+	for hno in 0..nh {
+		let maxn = match hno % 6 {
+			0 => 6,
+			1 => 17,
+			2 => 34,
+			3 => 70,
+			_ => if thorough { 400 } else { 150 },
+		};
+		let steps = if thorough { 400 } else { 200 };
+		one_history(out, rng, &mut st, maxn, steps, hno % 3);
+	}
+	out.raw(&format!(
+		"#STAT handle: histories={} steps={} (no observation in {}), pushes={} rewinds={} (to-zero {}, nothing-to-undo {}, non-leaf target {}), same-size replacements={} (same contents {}, observed before and after {}, of these with identical calls {}), observations={} (root {}, proof {}), steps at a size seen before in the same history={}, max leaves={}",
+		st.histories, st.steps, st.steps_unobserved, st.pushes, st.rewinds, st.rewind_to_zero, st.rewind_noop, st.rewind_nonleaf,
+		st.replace_same_size, st.replace_same_contents, st.replace_observed_both, st.replace_paired, st.obs, st.root_obs, st.proof_obs, st.sizes_revisited, st.max_leaves
+	));
+}
+
+/// every read of `ReadablePMMR` on a handle / view at size `s`, tagged
+fn read_all<P: ReadablePMMR<Item = Elem>>(out: &mut Out, rng: &mut Rng, p: &P, tag: &str, s: u64, blen: u64, full: bool) -> (String, String) {
+	let r = match catch(std::panic::AssertUnwindSafe(|| root_str(p.root()))) {
+		Ok(r) => r,
+		Err(_) => "panic".into(),
+	};
+	out.line(&format!("pmmr hroot {}", tag), &r);
+	let pk = match catch(std::panic::AssertUnwindSafe(|| hashes(&p.peaks()))) {
+		Ok(r) => r,
+		Err(_) => "panic".into(),
+	};
+	out.line(&format!("pmmr hpeaks {}", tag), &pk);
+	out.line(&format!("pmmr hsize {}", tag), &p.unpruned_size().to_string());
+	if full {
+		let mut poss: Vec<u64> = vec![0, 1, 2, 3, s.saturating_sub(1), s, s + 1, blen.saturating_sub(1), blen];
+		for _ in 0..3 {
+			poss.push(rng.below(s.min(blen) + 2));
+		}
+		// the last leaf positions below s and the first at or above it
+		let l = leaves_upto(s);
+		for d in 0..3 {
+			if l > d {
+				poss.push(size_of_leaves(l - 1 - d));
+			}
+		}
+		poss.push(size_of_leaves(l));
+		poss.push(size_of_leaves(l + 1));
+		poss.sort();
+		poss.dedup();
+		for &pos in &poss {
+			if pos > (1 << 32) {
+				continue;
+			}
+			let pr = match catch(std::panic::AssertUnwindSafe(|| p.merkle_proof(pos))) {
+				Ok(Ok(pr)) => format!("{} {}", pr.mmr_size, hashes(&pr.path)),
+				Ok(Err(_)) => "err".into(),
+				Err(_) => "panic".into(),
+			};
+			out.line(&format!("pmmr hproof {} {}", pos, tag), &pr);
+			out.line(&format!("pmmr hhash {} {}", pos, tag), &opt_hash(p.get_hash(pos)));
+			out.line(&format!("pmmr hdata {} {}", pos, tag), &opt_elem(p.get_data(pos)));
+			if p.get_hash(pos).is_some() && pos >= s {
+				out.raw(&format!("#ORACLE-FAIL C07 a {} view at size {} returns a hash for position {}", tag, s, pos));
+			}
+		}
+	}
+	(r, pk)
+}
+
+#[derive(Default)]
+struct AStats {
+	sizes: u64,
+	invalid: u64,
+	beyond: u64,
+	push_refused: u64,
+	push_ok: u64,
+	push_ok_at_end: u64,
+	rewinds: u64,
+	prunes: u64,
+}
+
+/// handles and views opened at every size 0..len+6 (and a few far beyond) of a filled backend
+fn at_sizes(out: &mut Out, rng: &mut Rng, st: &mut AStats, nleaves: u64, hash_only: bool, prune_some: bool, extra: &[u64]) {
+	let mut base = if hash_only { VecBackend::<Elem>::new_hash_only() } else { VecBackend::<Elem>::new() };
+	out.raw(if hash_only { "pmmr hnewho" } else { "pmmr hnew" });
+	let mut elems: Vec<Elem> = vec![];
+	let mut size = 0u64;
+	for _ in 0..nleaves {
+		let e = Elem(rng.bytes(8));
+		let mut p = PMMR::at(&mut base, size);
+		let r = p.push(&e);
+		size = p.size;
+		out.line(&format!("pmmr hpush {}", hex(&e.0)), &if r.is_ok() { size.to_string() } else { "err".into() });
+		elems.push(e);
+	}
+	if prune_some {
+		for _ in 0..3 {
+			let pos = size_of_leaves(rng.below(nleaves));
+			let mut p = PMMR::at(&mut base, size);
+			let r = p.prune(pos);
+			out.line(&format!("pmmr hprune {}", pos), &match r { Ok(b) => b.to_string(), Err(_) => "err".into() });
+		}
+	}
+	out.raw("pmmr hsave");
+	let blen = base.hashes.len() as u64;
+	let mut all: Vec<u64> = (0..=blen + 6).collect();
+	all.extend_from_slice(extra);
+	for &s in &all {
+		st.sizes += 1;
+		let valid = is_valid_mmr_size(s);
+		if !valid {
+			st.invalid += 1;
+		}
+		if s > blen {
+			st.beyond += 1;
+		}
+		let small = s <= blen + 6;
+		// --- reads through the three kinds of handle
+		let mut b = base.clone();
+		out.raw("pmmr hrestore");
+		out.raw(&format!("pmmr hat {}", s));
+		let (r1, k1) = {
+			let p = PMMR::at(&mut b, s);
+			let x = read_all(out, rng, &p, "pmmr", s, blen, small);
+			if small {
+				out.line("pmmr hvalidate", &match catch(std::panic::AssertUnwindSafe(|| p.validate().is_ok())) { Ok(v) => v.to_string(), Err(_) => "panic".into() });
+				if s % 8 == 3 || s == blen {
+					out.line("pmmr hleafpos", &nat_list(&p.leaf_pos_iter().collect::<Vec<_>>()));
+				}
+				if s % 16 == 5 {
+					// VecBackend::n_unpruned_leaves is unimplemented!()
+					out.line("pmmr hnunpruned", &match catch(std::panic::AssertUnwindSafe(|| p.n_unpruned_leaves())) { Ok(v) => v.to_string(), Err(_) => "panic".into() });
+				}
+			}
+			x
+		};
+		let (r2, k2) = read_all(out, rng, &ReadonlyPMMR::at(&b, s), "ro", s, blen, small && s % 3 == 0);
+		let (r3, k3) = read_all(out, rng, &RewindablePMMR::<Elem, _>::at(&b, s).as_readonly(), "rw", s, blen, false);
+		if r1 != r2 || r1 != r3 || k1 != k2 || k1 != k3 {
+			out.raw(&format!("#ORACLE-FAIL C07 PMMR::at / ReadonlyPMMR::at / RewindablePMMR::at at size {} over the same backend ({} hashes) disagree: roots {} {} {}", s, blen, r1, r2, r3));
+		}
+		if !valid && (r1 != "err" || k1 != "[]") {
+			out.raw(&format!("#ORACLE-FAIL C07 size {} is not the size of any MMR, yet a handle opened there reports root {} peaks {}", s, r1, k1));
+		}
+		if valid && s <= blen && !prune_some {
+			let (fr, _) = fresh_build(&elems[..leaves_upto(s) as usize]);
+			if fr != r1 {
+				out.raw(&format!("#ORACLE-FAIL C07 a handle opened at the valid size {} of a backend of {} hashes has root {} where the MMR of the first {} elements has {}", s, blen, r1, leaves_upto(s), fr));
+			}
+		}
+		// --- push
+		{
+			let e = Elem(rng.bytes(8));
+			let (res, sz, root_after, peaks_after) = {
+				let mut p = PMMR::at(&mut b, s);
+				let res = catch(std::panic::AssertUnwindSafe(|| p.push(&e)));
+				(res, p.size, root_str(p.root()), hashes(&p.peaks()))
+			};
+			let rs = match &res {
+				Ok(Ok(_)) => sz.to_string(),
+				Ok(Err(_)) => "err".to_string(),
+				Err(_) => "panic".to_string(),
+			};
+			out.line(&format!("pmmr hpush {}", hex(&e.0)), &rs);
+			out.line("pmmr hsize", &sz.to_string());
+			out.line("pmmr hroot", &root_after);
+			out.line("pmmr hpeaks", &peaks_after);
+			backend_line(out, &b);
+			let unchanged = b.hashes == base.hashes && b.data == base.data && b.removed == base.removed;
+			match &res {
+				Ok(Ok(_)) => {
+					st.push_ok += 1;
+					if !valid {
+						out.raw(&format!("#ORACLE-FAIL C07 push accepted on a handle opened at size {}, which is not the size of any MMR; the handle now claims size {}", s, sz));
+					} else if !is_valid_mmr_size(sz) {
+						out.raw(&format!("#ORACLE-FAIL C07 push on a handle at size {} leaves it at size {}, which is not the size of any MMR", s, sz));
+					}
+					if s == blen && !hash_only {
+						st.push_ok_at_end += 1;
+						let mut l = elems.clone();
+						l.push(e.clone());
+						let (fr, fh) = fresh_build(&l);
+						if fr != root_after || fh != b.hashes {
+							out.raw(&format!("#ORACLE-FAIL C07 push on a handle opened at the end (size {}) of the backend does not give the MMR of the old list plus the element: root {} expected {}", s, root_after, fr));
+						}
+					}
+				}
+				_ => {
+					st.push_refused += 1;
+					if sz != s || !unchanged {
+						out.raw(&format!("#ORACLE-FAIL C07 a refused push on a handle opened at size {} changed something: size now {}, backend changed: {}", s, sz, !unchanged));
+					}
+					if valid && s <= blen {
+						out.raw(&format!("#ORACLE-FAIL C07 push refused on a handle opened at the valid size {} inside a backend of {} hashes", s, blen));
+					}
+				}
+			}
+		}
+		if !small {
+			continue;
+		}
+		// --- rewind: to a non-leaf position, to the size itself, beyond the size, beyond the backend
+		let mut targets: Vec<u64> = vec![s, s + 1, s + 3, blen + 5];
+		if let Some(q) = (0..s).rev().find(|q| !is_valid_mmr_size(*q)) {
+			targets.push(q);
+		}
+		if s > 2 {
+			targets.push(rng.below(s));
+		}
+		targets.sort();
+		targets.dedup();
+		for &t in &targets {
+			if !(s % 2 == 0 || t == s + 1 || t < s) {
+				continue;
+			}
+			st.rewinds += 1;
+			let mut b = base.clone();
+			out.raw("pmmr hrestore");
+			out.raw(&format!("pmmr hat {}", s));
+			let (sz, r, k) = {
+				let mut p = PMMR::at(&mut b, s);
+				let res = p.rewind(t, &croaring::Bitmap::new());
+				out.line(&format!("pmmr hrewind {}", t), &if res.is_ok() { p.size.to_string() } else { "err".into() });
+				(p.size, root_str(p.root()), hashes(&p.peaks()))
+			};
+			out.line("pmmr hroot", &r);
+			out.line("pmmr hpeaks", &k);
+			backend_line(out, &b);
+			if !is_valid_mmr_size(sz) {
+				out.raw(&format!("#ORACLE-FAIL C07 rewind to position {} on a handle opened at size {} leaves it at size {}, which is not the size of any MMR", t, s, sz));
+			}
+			if sz <= blen && !prune_some {
+				let (fr, fh) = fresh_build(&elems[..leaves_upto(sz) as usize]);
+				if fr != r || fh != b.hashes {
+					out.raw(&format!("#ORACLE-FAIL C07 after a rewind to position {} (handle opened at size {}, backend {} hashes) root {} / {} hashes are not those of the first {} elements ({} / {})", t, s, blen, r, b.hashes.len(), leaves_upto(sz), fr, fh.len()));
+				}
+			}
+			if sz <= blen && s % 4 == 0 {
+				// and on from there
+				let e = Elem(rng.bytes(8));
+				let mut p = PMMR::at(&mut b, sz);
+				let res = p.push(&e);
+				out.raw(&format!("pmmr hat {}", sz));
+				out.line(&format!("pmmr hpush {}", hex(&e.0)), &if res.is_ok() { p.size.to_string() } else { "err".into() });
+				out.line("pmmr hroot", &root_str(p.root()));
+			}
+		}
+		// --- prune through a handle at s: a non-leaf, a leaf below s (twice), a leaf at or beyond s
+		if s % 5 == 0 {
+			let mut b = base.clone();
+			out.raw("pmmr hrestore");
+			out.raw(&format!("pmmr hat {}", s));
+			let l = leaves_upto(s);
+			let mut poss: Vec<u64> = vec![2];
+			if l > 0 {
+				let q = size_of_leaves(rng.below(l));
+				poss.push(q);
+				poss.push(q);
+			}
+			poss.push(size_of_leaves(l + 1));
+			poss.push(size_of_leaves(l + 2));
+			for pos in poss {
+				st.prunes += 1;
+				let mut p = PMMR::at(&mut b, s);
+				let r = p.prune(pos);
+				out.line(&format!("pmmr hprune {}", pos), &match r { Ok(v) => v.to_string(), Err(_) => "err".into() });
+				out.line(&format!("pmmr hproof {}", pos), &match p.merkle_proof(pos) { Ok(pr) => format!("{} {}", pr.mmr_size, hashes(&pr.path)), Err(_) => "err".into() });
+				out.line("pmmr hroot", &root_str(p.root()));
+			}
+			backend_line(out, &b);
+		}
+	}
+}
+
+fn atsize_run(out: &mut Out, rng: &mut Rng, thorough: bool) {
+	let mut st = AStats::default();
+	let big = [1u64 << 12, (1 << 12) + 1, (1 << 20) - 1, 1 << 20, (1u64 << 40) + 3, (1u64 << 62) - 1];
+	at_sizes(out, rng, &mut st, if thorough { 260 } else { 104 }, false, false, &big);
+	at_sizes(out, rng, &mut st, 21, false, true, &[]);
+	at_sizes(out, rng, &mut st, 19, true, false, &[]);
+	if thorough {
+		for n in [1, 2, 3, 4, 7, 8, 16, 33, 64] {
+			at_sizes(out, rng, &mut st, n, false, false, &[]);
+		}
+	}
+	out.raw(&format!(
+		"#STAT atsize: handle sizes opened={} (not an MMR size: {}, beyond the backend: {}), pushes refused={} accepted={} (at the end of the backend: {}), rewinds={} prunes={}",
+		st.sizes, st.invalid, st.beyond, st.push_refused, st.push_ok, st.push_ok_at_end, st.rewinds, st.prunes
+	));
+}
+
 fn main() {
 	quiet_panics();
 	let args: Vec<String> = std::env::args().collect();
@@ -645,6 +1368,12 @@ fn main() {
 	}
 	if mode == "views" || mode == "all" {
 		views(&mut out, &mut rng, thorough);
+	}
+	if mode == "handle" || mode == "all" {
+		handle_run(&mut out, &mut rng, thorough);
+	}
+	if mode == "atsize" || mode == "all" {
+		atsize_run(&mut out, &mut rng, thorough);
 	}
 	out.flush();
 }
